@@ -2,12 +2,12 @@ package props
 
 import (
 	"fmt"
-	"os"
-	"path/filepath"
-	"regexp"
 	"go/ast"
 	"go/token"
 	"go/types"
+	"os"
+	"path/filepath"
+	"regexp"
 	"strings"
 
 	"octoverif/core"
